@@ -119,10 +119,15 @@ def _predict_cell(fname, cls):
             if need or fname == "grid":
                 return None
             bad = lambda: f.predict()  # noqa
-        elif cls == "different":
+        elif cls in ("different", "different-subset", "different-superset", "different-absolute", "different-one-step"):
             if not need:
                 return None
-            bad = lambda: f.predict([h + 1 for h in cx.fh])  # noqa
+            # every kind of horizon other than the one the forecaster was fitted with: shifted, a part of it, more than it, the
+            # same steps counted from another origin, a single step of it
+            from sktime.forecasting.base import ForecastingHorizon
+            other = {"different": [h + 1 for h in cx.fh], "different-subset": list(cx.fh)[1:] or [cx.fh[0] + 1], "different-superset": list(cx.fh) + [max(cx.fh) + 1],
+                     "different-absolute": ForecastingHorizon([int(cx.y.index[-1]) + h + 1 for h in cx.fh], is_relative=False), "different-one-step": [cx.fh[-1]] if len(cx.fh) > 1 else [cx.fh[0] + 2]}[cls]
+            bad = lambda: f.predict(other)  # noqa
         else:
             bad = lambda: f.predict(cx.bad_fh(cls))  # noqa
         twin = lambda: f.predict(cx.fh)  # noqa
@@ -358,7 +363,8 @@ for _f in FORECASTERS:
         _add("fit:%s:fh:%s" % (_f, _c), _fit_cell(_f, "fh", _c))
         _add("predict:%s:fh:%s" % (_f, _c), _predict_cell(_f, _c))
     _add("predict:%s:fh:missing" % _f, _predict_cell(_f, "missing"))
-    _add("predict:%s:fh:different" % _f, _predict_cell(_f, "different"))
+    for _d in ("different", "different-subset", "different-superset", "different-absolute", "different-one-step"):
+        _add("predict:%s:fh:%s" % (_f, _d), _predict_cell(_f, _d))
     if _f in TAKES_X:
         _add("fit:%s:X:index-differs" % _f, _fit_cell(_f, "X", "shifted"))
     for _c in ("unsorted", "dataframe", "ndarray"):
@@ -407,7 +413,7 @@ for _d in ["y:" + c for c in Y_CLASSES] + ["grid-scalar", "grid-unknown-param", 
 
 def cases(tier, seed):
     rng = np.random.default_rng([seed, 20])
-    reps = 6 if tier == "quick" else 60
+    reps = 6 if tier == "quick" else 150
     for r in range(reps):
         for i, (name, _) in enumerate(CELLS):
             yield {"cell": name, "i": i, "cseed": int(rng.integers(0, 2 ** 31)), "rep": r}
